@@ -31,6 +31,15 @@ claimed = {
    technique='stateless model checking of the real code under a controlled scheduler (preemption-bounded DFS, then all interleavings with a happens-before state cache); each execution history checked for linearizability with porcupine',
    text='11 operation mixes (Set/Get/Delete, Set/DeletePrefix/Has, Clear, Iterate/IterateKeys in both directions, batch Commit vs Iterate/Get/DeletePrefix/batch) by 2-4 threads through two overlapping views (realm empty and 00, colliding stored keys) over mapdb and flushkv(mapdb). Every interleaving with <= 2 (thorough 3) preemptions and, where it completes, every interleaving at all (state cache) is executed on the real code; the recorded call/return history of every execution plus a sequential read of the final contents is checked by porcupine against the C04 ordered-map model (batch = one atomic write per key inside the Commit interval; Iterate = atomic snapshot). Deadlocks and panics are violations.',
    note='Trusted: shim fidelity, sequential consistency, porcupine. Data-race freedom is not decided by this check (cooperative scheduling hides races); 5-16 goroutines are not explored.', ref='2 C05'),
+
+ 'C06': dict(cat='fault_enumeration', engine='H+S',
+   technique='explicit-state search over operation histories with a fault injected at every store/codec call position of every operation (merged on model + real cache contents, plus unmerged depth-bounded pass); stateless model checking of concurrent callers',
+   text='TypedValue: all histories of Get/Has/Set/Delete/Compute (increment, constant, ErrTypedValueNotChanged, failing) and Reopen (fresh TypedValue over the same store), each operation also with the 1st..4th environment call (kv.Get/Has/Set/Delete, encoder, decoder) failing; merged search to the fixpoint and unmerged search to depth 4 (thorough 5). TypedStore: Get/Has/Set/Delete/Iterate/IterateKeys with faults in every key/value codec and store call. Oracle: results equal the raw key under the codec, a fired fault is reported as an error and leaves raw bytes and later results unchanged, stored bytes == encoding of the last successfully written value, compute functions see the raw value. S: 7 scenarios of 2-3 concurrent Compute/Set/Delete/Get/Has callers (fresh and warm caches), all interleavings: no lost update, cache coherent with the raw key at the end.',
+   note='Trusted: fault model = generic error at one call position per operation; the TypedValue is the only writer of its key. One genuine defect repaired (fix: commit).', ref='2 C06'),
+ 'C07': dict(cat='fault_enumeration', engine='H+S',
+   technique='exhaustive enumeration of operation histories x crash points (process stops before/after each store call) on the real Sequence over a store that outlives the objects; stateless model checking of concurrent Next callers',
+   text='Every history up to depth 7 (thorough 8) over Next, Release, Restart(interval 1..3), where every Next/Release additionally runs with the process stopping before or after its 1st/2nd store call. Oracle: numbers returned over the whole life of the store strictly increase; the gap between consecutive numbers is at most the sum of the intervals of the objects crashed or abandoned without Release in between and exactly 0 after clean Releases. S: all interleavings of 2-3 threads x 2 Next on one Sequence (intervals 1-3): all numbers distinct, per-caller increasing, restart after Release continues without a gap.',
+   note='Trusted: one live Sequence object per key; store calls fail only by the process stopping. One genuine defect repaired (fix: commit).', ref='2 C07'),
 }
 na_reason = 'check not built yet in this round (engine exists; see DESIGN.md section 9 for the order of work)'
 checks = []
